@@ -110,7 +110,9 @@ fn rand_entry(rng: &mut Rng, uuid: u128, with_hist: bool) -> Entry {
         rand_edit(rng, &mut e);
     }
     if rng.chance(3, 4) {
-        e.times.set_last_modification(mk_time(100 + rng.below(50) as i64));
+        // mostly in the past; sometimes ahead of the clock (files written by a client whose clock runs ahead)
+        let t = if rng.chance(1, 6) { 4_102_444_800 + rng.below(1000) as i64 } else { 100 + rng.below(50) as i64 };
+        e.times.set_last_modification(mk_time(t));
     }
     if rng.chance(1, 2) {
         e.times.set_location_changed(mk_time(100 + rng.below(50) as i64));
